@@ -312,6 +312,10 @@ func registerHarnessAPI(e *Exec) {
 		"vRunSpawned": func(e *Exec, st *State, fn *ssa.Function, args []Value) []Outcome {
 			return e.runSpawned(st, 0)
 		},
+		"vDistinctRandom": func(e *Exec, st *State, fn *ssa.Function, args []Value) []Outcome {
+			st.distinctRand = true
+			return ret(st)
+		},
 		"vLocksHeldNow": func(e *Exec, st *State, fn *ssa.Function, args []Value) []Outcome {
 			return ret(st, BV{e.tc.Int(int64(st.locks))})
 		},
